@@ -12,7 +12,7 @@
    -1), the final statics, the unconsumed oracle and the ghost trace of instantiate / reseed /
    generate events. *)
 From Coq Require Import NArith List.
-From LCP Require Import Base.CheckedMem Gen.Repo_dhdrbg Crypto.DrbgSpec Crypto.DrbgModel Crypto.DrbgProofs.
+From LCP Require Import Base.CheckedMem Gen.Repo_dhdrbg Crypto.DrbgSpec Crypto.DrbgOsSpec Crypto.DrbgModel Crypto.DrbgOsModel Crypto.DrbgProofs Crypto.DrbgOsProofs.
 Import ListNotations.
 Local Open Scope N_scope.
 
@@ -122,7 +122,8 @@ Proof. exact repo_params_eq_spec. Qed.
 Print Assumptions C11_repo_constants.
 
 (* util/entropy.c: the read loop never aborts; on success the buffer holds exactly buflen bytes,
-   the answers of read() in order, cut to the space left; otherwise it fails *)
+   the answers of read() in order, cut to the space left.  (Success direction only; WHEN it
+   succeeds and fails is C11_entropy_read_fill_exact / _succeeds / _fails_why below.) *)
 Theorem C11_entropy_read_fill :
   forall buflen answers,
   exists res rest used,
@@ -131,3 +132,116 @@ Theorem C11_entropy_read_fill :
        bytes = firstn (N.to_nat buflen) (concat (map payload used)) /\ length bytes = N.to_nat buflen).
 Proof. exact entropy_read_fill_correct. Qed.
 Print Assumptions C11_entropy_read_fill.
+
+(* ---------------- util/entropy.c in full, and the generator over it ----------------
+   Vocabulary (Crypto/DrbgOsSpec.v, DrbgOsProofs.v): a [session] is the answers the OS gives to
+   one open, to the reads and to the closes that follow; [good a] = the read delivered at least one
+   byte; [all_good l] = every answer of l is good; [total l] = bytes delivered by l together;
+   [close_succeeds c] = c is k >= 0 answers -1/EINTR followed by an answer 0; [suffix l' l] = l'
+   is what remains of l after a prefix was consumed; [spec_fill], [spec_session] and
+   [spec_resolve] are the spec's reading of a session (no loop, no goto ladder). *)
+
+(* the read loop, for EVERY answer sequence, never aborts and returns exactly [spec_fill]:
+   success with the first buflen delivered bytes iff at least buflen bytes were delivered before
+   the first read that returned -1, returned 0, or was beyond the script; otherwise failure *)
+Theorem C11_entropy_read_fill_exact :
+  forall buflen answers,
+  exists rest, entropy_read_fill_m buflen answers = Ok (spec_fill (N.to_nat buflen) answers, rest) /\
+               suffix rest answers.
+Proof. exact entropy_read_fill_exact. Qed.
+Print Assumptions C11_entropy_read_fill_exact.
+
+(* short reads are tolerated: if the answers to be consumed each deliver something and together
+   reach buflen, the call succeeds with the first buflen bytes delivered *)
+Theorem C11_entropy_read_fill_succeeds :
+  forall buflen used rest,
+  all_good used -> (N.to_nat buflen <= total used)%nat ->
+  exists rest', entropy_read_fill_m buflen (used ++ rest) =
+                Ok (Some (firstn (N.to_nat buflen) (concat (map payload used))), rest').
+Proof. exact entropy_read_fill_succeeds. Qed.
+Print Assumptions C11_entropy_read_fill_succeeds.
+
+(* it fails only if, after good reads of fewer than buflen bytes together, the last consumed
+   answer is -1, or is 0 bytes (EOF), or the answers ran out *)
+Theorem C11_entropy_read_fill_fails_why :
+  forall buflen answers rest,
+  entropy_read_fill_m buflen answers = Ok (None, rest) ->
+  exists pre, all_good pre /\ (total pre < N.to_nat buflen)%nat /\
+    (answers = pre ++ RdErr :: rest \/ answers = pre ++ RdBytes [] :: rest \/ (answers = pre /\ rest = [])).
+Proof. exact entropy_read_fill_fails_why. Qed.
+Print Assumptions C11_entropy_read_fill_fails_why.
+
+(* and success means: the consumed answers were all good, reached buflen, and the buffer holds
+   the first buflen bytes they delivered *)
+Theorem C11_entropy_read_fill_success_why :
+  forall buflen answers bytes rest,
+  entropy_read_fill_m buflen answers = Ok (Some bytes, rest) ->
+  exists used, answers = used ++ rest /\ all_good used /\ (N.to_nat buflen <= total used)%nat /\
+    bytes = firstn (N.to_nat buflen) (concat (map payload used)) /\ length bytes = N.to_nat buflen.
+Proof. exact entropy_read_fill_success_why. Qed.
+Print Assumptions C11_entropy_read_fill_success_why.
+
+(* the one-shot wrapper entropy_read(buf, buflen), for every session and every buflen <=
+   SSIZE_MAX: never aborts; it returns 0 with buf = bytes iff open() succeeded AND
+   entropy_read_fill returned 0 having stored bytes AND entropy_read_done returned 0 (close()
+   answered 0, after any number of EINTR); in every other case it returns -1 (res = None); on
+   success exactly buflen bytes *)
+Theorem C11_entropy_read_wrapper :
+  forall buflen s, (buflen <= ssize_max)%N ->
+  exists res lg, entropy_read_w buflen s = Ok (res, lg) /\
+    (forall bytes, res = Some bytes <->
+       s_open s = true /\
+       (exists rest, entropy_read_fill_m buflen (s_reads s) = Ok (Some bytes, rest)) /\
+       close_succeeds (s_closes s)) /\
+    (forall bytes, res = Some bytes -> length bytes = N.to_nat buflen).
+Proof. exact entropy_read_w_iff. Qed.
+Print Assumptions C11_entropy_read_wrapper.
+
+(* ... which is the spec's reading of a session *)
+Theorem C11_entropy_read_wrapper_exact :
+  forall buflen s, (buflen <= ssize_max)%N ->
+  exists lg, entropy_read_w buflen s = Ok (spec_session (N.to_nat buflen) s, lg).
+Proof. exact entropy_read_w_exact. Qed.
+Print Assumptions C11_entropy_read_wrapper_exact.
+
+(* the generator over the real entropy wrapper: crypto_entropy_read with instantiate() / reseed()
+   calling the model of entropy_read() over the system-call answers (one session per call), for
+   ALL request sequences, ALL initial statics and ALL session scripts: never aborts, and its
+   per-call results, final (Key, V, reseed_counter, instantiated) and session consumption equal
+   those of the SP 800-90A machine fed with what the sessions delivered ([spec_resolve]: the
+   i-th acquisition uses the i-th session, asked for 48 bytes while uninstantiated and for 32
+   afterwards; a failed session is a failed acquisition and the call fails) *)
+Theorem C11_generator_with_os_entropy :
+  forall (hmac : list N -> list N -> list N) (hctx : Type) (h_init : list N -> hctx)
+         (h_update : hctx -> list N -> hctx) (h_final : hctx -> list N) (h_buf : list N -> list N -> list N),
+  (forall K a b, h_final (h_update (h_update (h_init K) a) b) = hmac K (a ++ b)) ->
+  (forall K m, h_buf K m = hmac K m) ->
+  (forall K m, length (hmac K m) = 32%nat) ->
+  forall reqs st ss,
+  exists results st' ss' tr,
+    run_os repo_drbg_params hctx h_init h_update h_final h_buf reqs st ss = Ok (results, st', ss', tr) /\
+    spec_run hmac reqs (abs_state st) (spec_resolve (dinst st) ss) =
+      (results, abs_state st', spec_resolve (dinst st') ss') /\
+    suffix ss' ss.
+Proof. exact repo_os_refines_spec. Qed.
+Print Assumptions C11_generator_with_os_entropy.
+
+(* per call, over the system calls: the entropy acquisitions of the call are the next sessions
+   in order, each succeeding exactly when its session did ([trace_oracle] over the resolved
+   sessions); the call returns 0 iff all of them succeeded; success means instantiated, n bytes,
+   the chunk sizes of n; a failed instantiation leaves the statics untouched, instantiated = 0 *)
+Theorem C11_os_call_facts :
+  forall (hmac : list N -> list N -> list N) (hctx : Type) (h_init : list N -> hctx)
+         (h_update : hctx -> list N -> hctx) (h_final : hctx -> list N) (h_buf : list N -> list N -> list N),
+  (forall K a b, h_final (h_update (h_update (h_init K) a) b) = hmac K (a ++ b)) ->
+  (forall K m, h_buf K m = hmac K m) ->
+  (forall K m, length (hmac K m) = 32%nat) ->
+  forall st n ss rc bytes st' ss' tr,
+  entropy_read_os_m repo_drbg_params hctx h_init h_update h_final h_buf st n ss = Ok (rc, bytes, st', ss', tr) ->
+  trace_oracle tr (spec_resolve (dinst st) ss) = Some (spec_resolve (dinst st') ss') /\
+  forallb ev_ok tr = rc /\ suffix ss' ss /\
+  (rc = true -> dinst st' = true /\ gen_sizes tr = spec_chunks n /\ length bytes = N.to_nat n /\
+                (dinst st = false -> In (EvInstantiate 48 true) tr)) /\
+  (dinst st = false -> dinst st' = false -> rc = false /\ st' = st /\ tr = [EvInstantiate 48 false]).
+Proof. exact repo_os_call_facts. Qed.
+Print Assumptions C11_os_call_facts.
